@@ -285,8 +285,61 @@ func Entails(cons []Lin, goal Lin, env Env) bool {
 	if neg.Bad {
 		return false
 	}
+	// small neighbourhoods first: fewer constraints are weaker (still sound) and
+	// keep Fourier-Motzkin away from its size cap
+	for _, depth := range []int{1, 2, 4} {
+		sys := append(coneDepth(cons, goal, depth), neg)
+		if !feasible(sys, env) {
+			return true
+		}
+	}
 	sys := append(coneOf(cons, goal), neg)
 	return !feasible(sys, env)
+}
+
+// coneDepth: constraints within `depth` hops of the atoms of seed.
+func coneDepth(cons []Lin, seed Lin, depth int) []Lin {
+	in := map[Atom]bool{}
+	for _, t := range seed.T {
+		in[t.A] = true
+	}
+	used := make([]bool, len(cons))
+	for d := 0; d < depth; d++ {
+		var add []Atom
+		for i, c := range cons {
+			if used[i] {
+				continue
+			}
+			touch := false
+			for _, t := range c.T {
+				if in[t.A] {
+					touch = true
+					break
+				}
+			}
+			if touch {
+				used[i] = true
+				for _, t := range c.T {
+					if !in[t.A] {
+						add = append(add, t.A)
+					}
+				}
+			}
+		}
+		if len(add) == 0 {
+			break
+		}
+		for _, a := range add {
+			in[a] = true
+		}
+	}
+	var out []Lin
+	for i, c := range cons {
+		if used[i] {
+			out = append(out, c)
+		}
+	}
+	return out
 }
 
 // LowerBound computes a lower bound of e over cons by bisection on entailment
@@ -326,16 +379,26 @@ func Eliminate(cons []Lin, a Atom, env Env) []Lin {
 			neg = append(neg, Var(a).Neg().AddConst(r.Hi))
 		}
 	}
-	if len(pos)*len(neg) > 64 {
-		return dedup(rest) // too costly: drop (sound)
+	pos, neg = dedup(pos), dedup(neg)
+	if len(pos)*len(neg) > 400 {
+		// keep the sparsest constraints of each side (single-atom bounds first)
+		sort.SliceStable(pos, func(i, j int) bool { return len(pos[i].T) < len(pos[j].T) })
+		sort.SliceStable(neg, func(i, j int) bool { return len(neg[i].T) < len(neg[j].T) })
+		for len(pos)*len(neg) > 400 {
+			if len(pos) >= len(neg) {
+				pos = pos[:len(pos)-1]
+			} else {
+				neg = neg[:len(neg)-1]
+			}
+		}
 	}
 	for _, p := range pos {
 		for _, n := range neg {
 			kp, kn := p.Coef(a), -n.Coef(a)
 			g := gcd(kp, kn)
 			c := p.Scale(kn/g).AddMul(n, kp/g)
-			if c.Bad {
-				continue
+			if c.Bad || len(c.T) > 4 {
+				continue // wide combinations are rarely useful and make later eliminations explode
 			}
 			c = tighten(c, env)
 			if len(c.T) == 0 {
